@@ -46,8 +46,12 @@ func bodiesFor(x *world, e *catalog.Entry, a catalog.Args) []val {
 		)
 	case "CompleteMultipartUpload":
 		et := a.PartETag
-		part := func(n, etag string) string { return `<Part><PartNumber>` + n + `</PartNumber><ETag>` + etag + `</ETag></Part>` }
-		w := func(parts string) string { return `<CompleteMultipartUpload` + ns + `>` + parts + `</CompleteMultipartUpload>` }
+		part := func(n, etag string) string {
+			return `<Part><PartNumber>` + n + `</PartNumber><ETag>` + etag + `</ETag></Part>`
+		}
+		w := func(parts string) string {
+			return `<CompleteMultipartUpload` + ns + `>` + parts + `</CompleteMultipartUpload>`
+		}
 		return vs(
 			"self-closed-root", `<CompleteMultipartUpload/>`, "no-parts", w(""), "nil-part", w(`<Part/>`), "part-number-0", w(part("0", et)), "part-number-neg", w(part("-1", et)),
 			"part-number-10001", w(part("10001", et)), "part-number-2^31-1", w(part("2147483647", et)), "part-number-2^31", w(part("2147483648", et)), "part-number-2^63", w(part("9223372036854775808", et)),
@@ -80,7 +84,9 @@ func bodiesFor(x *world, e *catalog.Entry, a catalog.Args) []val {
 			"no-namespace", `<VersioningConfiguration><Status>Enabled</Status></VersioningConfiguration>`,
 		)
 	case "PutObjectLockConfiguration":
-		w := func(in string) string { return `<ObjectLockConfiguration` + ns + `>` + in + `</ObjectLockConfiguration>` }
+		w := func(in string) string {
+			return `<ObjectLockConfiguration` + ns + `>` + in + `</ObjectLockConfiguration>`
+		}
 		dr := func(in string) string { return `<Rule><DefaultRetention>` + in + `</DefaultRetention></Rule>` }
 		en := `<ObjectLockEnabled>Enabled</ObjectLockEnabled>`
 		return vs(
@@ -112,7 +118,7 @@ func bodiesFor(x *world, e *catalog.Entry, a catalog.Args) []val {
 			"no-namespace", `<Retention><Mode>GOVERNANCE</Mode><RetainUntilDate>`+catalog.FarFuture+`</RetainUntilDate></Retention>`,
 		)...)
 		for _, d := range dateVals {
-			out = append(out, val{"date-" + d.class, catalog.RetentionXML("GOVERNANCE", xmlText(d.v))})
+			out = append(out, val{class: "date-" + d.class, v: catalog.RetentionXML("GOVERNANCE", xmlText(d.v))})
 		}
 		return out
 	case "PutBucketAcl", "PutObjectAcl":
@@ -177,7 +183,9 @@ func bodiesFor(x *world, e *catalog.Entry, a catalog.Args) []val {
 			"nil-members", `<RestoreRequest`+ns+`><Days/><GlacierJobParameters/><Type/><Tier/><OutputLocation/><SelectParameters/></RestoreRequest>`,
 			"output-location", `<RestoreRequest`+ns+`><OutputLocation><S3><BucketName>x</BucketName><Prefix>y</Prefix></S3></OutputLocation></RestoreRequest>`)
 	case "SelectObjectContent":
-		w := func(in string) string { return `<SelectObjectContentRequest` + ns + `>` + in + `</SelectObjectContentRequest>` }
+		w := func(in string) string {
+			return `<SelectObjectContentRequest` + ns + `>` + in + `</SelectObjectContentRequest>`
+		}
 		return vs("self-closed-root", `<SelectObjectContentRequest/>`, "empty-root", w(""), "expression-only", w(`<Expression>select 1</Expression>`), "nil-members", w(`<Expression/><ExpressionType/><InputSerialization/><OutputSerialization/><RequestProgress/><ScanRange/>`),
 			"scan-range-garbage", w(`<Expression>select * from s3object</Expression><ExpressionType>SQL</ExpressionType><InputSerialization><CSV/></InputSerialization><OutputSerialization><CSV/></OutputSerialization><ScanRange><Start>abc</Start><End>-1</End></ScanRange>`),
 			"progress-garbage", w(`<Expression>select * from s3object</Expression><ExpressionType>SQL</ExpressionType><RequestProgress><Enabled>zz</Enabled></RequestProgress>`),
